@@ -114,7 +114,8 @@ class Repo:
     # ------------------------------------------------------------------ load
     def _load(self) -> None:
         parsed: Dict[str, tuple] = {}
-        for fn in sorted(os.listdir(self.pkgdir)):
+        # overlay entries that are not on disk are modules a variant adds (a split of a module)
+        for fn in sorted(set(os.listdir(self.pkgdir)) | set(self.overlay)):
             if not fn.endswith(".py"):
                 continue
             path = os.path.join(self.pkgdir, fn)
